@@ -1,8 +1,8 @@
 use crate::engine::core::memory::passive_buffer_set::PassiveBufferSet;
 use crate::engine::core::segment::range_allocator::RangeAllocator;
 use crate::engine::core::{
-    Event, EventId, EventIdGenerator, FlushManager, InflightSegments, MemTable, SegmentIdLoader,
-    SegmentLifecycleTracker, WalHandle, WalRecovery,
+    Event, EventId, EventIdGenerator, FlushManager, InflightSegments, MemTable, PublishedUids,
+    SegmentIdLoader, SegmentLifecycleTracker, WalHandle, WalRecovery,
 };
 use crate::engine::shard::flush_progress::FlushProgress;
 use crate::shared::config::CONFIG;
@@ -59,6 +59,9 @@ impl ShardContext {
         // Step 2: Load existing (published) segment IDs
         let segment_id_loader = SegmentIdLoader::new(base_dir.clone());
         let segment_ids = Arc::new(RwLock::new(segment_id_loader.load_published()));
+        // ... and which uids the index lists for each of them: a segment that compaction
+        // drained only partially still holds the files of the uids that were moved out.
+        PublishedUids::for_shard(&base_dir).load_from_index(&base_dir);
         let segment_id = SegmentIdLoader::next_id(&segment_ids);
         let existing: Vec<String> = segment_ids.read().unwrap().clone();
         let allocator = RangeAllocator::from_existing_ids(existing.iter().map(|s| s.as_str()));
